@@ -82,7 +82,11 @@ func window(n, skip, limit int) (int, int) {
 
 func sortHarness(nDocs int, o ref.Opts, twoKeys bool, withCrit bool, windows bool) {
 	e := openEnv()
-	idxChoice := nd.Choice("index", 3) // none, on the sort field, on the filter field
+	nIdx := 3
+	if withCrit {
+		nIdx = 4 // also: indexes on BOTH the filter field and the sort field
+	}
+	idxChoice := nd.Choice("index", nIdx) // none, on the sort field, on the filter field
 	cfg := stateCfg{nDocs: nDocs, fields: func(i int) map[string]interface{} {
 		var fs map[string]interface{}
 		if o.Kinds == 0 {
@@ -105,6 +109,8 @@ func sortHarness(nDocs int, o ref.Opts, twoKeys bool, withCrit bool, windows boo
 		cfg.idxField = []string{"s"}
 	case 2:
 		cfg.idxField = []string{"x"}
+	case 3:
+		cfg.idxField = []string{"x", "s"}
 	}
 	a := buildState(e, cfg)
 	c := a.coll("c")
